@@ -1858,6 +1858,9 @@ archive_string_conversion_free(struct archive *a)
 const char *
 archive_string_conversion_charset_name(struct archive_string_conv *sc)
 {
+	/* No conversion object: the string stays in the current locale. */
+	if (sc == NULL)
+		return ("current locale");
 	if (sc->flag & SCONV_TO_CHARSET)
 		return (sc->to_charset);
 	else
@@ -4075,7 +4078,10 @@ archive_mstring_get_mbs_l(struct archive *a, struct archive_mstring *aes,
 	 * character-set. */
 	if ((aes->aes_set & AES_SET_MBS) == 0) {
 		const char *pm; /* unused */
-		archive_mstring_get_mbs(a, aes, &pm); /* ignore errors, we'll handle it later */
+		/* A string that is set but has no MBS form must not be
+		 * taken for a string that is not set. */
+		if (archive_mstring_get_mbs(a, aes, &pm) != 0)
+			ret = -1;
 	}
 	/* If we already have an MBS form, use it to be translated to
 	 * specified character-set. */
